@@ -31,6 +31,8 @@ LB = 1 << 13
 BASES_QUICK = [[0, 0, 1], [0, 3, 4], [1, 2, 2], [3, 4, 12], [9, 12, 20]]
 BASES_FULL = BASES_QUICK + [[2, 3, 6], [1, 4, 8], [4, 4, 7], [2, 6, 9], [6, 6, 7], [0, 5, 12], [0, 8, 15], [9, 12, 8],
                             [12, 16, 15], [2, 10, 11], [0, 7, 24]]
+# tilts m / prod(facs): 10^-k for k = 1..7 and 3e-3, 5e-4, 2e-5
+TILTS = [(1, [10] * k) for k in range(1, 8)] + [(3, [10, 10, 10]), (5, [10, 10, 10, 10]), (2, [10, 10, 10, 10, 10])]
 NEAR = [[1, 0, 100], [0, -1, 100], [1, 1, -100], [100, 1, 0], [0, 100, -1], [-100, 0, 3]]
 
 
@@ -93,6 +95,9 @@ def _execute(inp):
     from porepy.geometry import map_geometry as mg
 
     k = inp["kind"]
+    tilt = k.startswith("tilt_")      # tilted family: same calls, the limbs are always kept
+    if tilt:
+        k = k[5:]
     if k == "tnp":
         normals = np.array(inp["normals"], dtype=float).T
         t = pp.TangentialNormalProjection(normals)
@@ -103,14 +108,14 @@ def _execute(inp):
         return dict(R=enc(mg.rotation_matrix(angle_of(inp["ang"]), np.array(inp["w"], dtype=float))))
     pts = np.array(inp["pts"], dtype=float).T
     if k == "normal":
-        return dict(v=enc(mg.compute_normal(pts)))
+        return dict(v=enc(mg.compute_normal(pts), tilt))
     kw = {}
     if inp["ref"]:
         kw["reference"] = np.eye(3)[inp["ref"] - 1]
     if k == "plane":
-        return dict(R=enc(mg.project_plane_matrix(pts, normal=np.array(inp["n"], dtype=float), **kw)))
+        return dict(R=enc(mg.project_plane_matrix(pts, normal=np.array(inp["n"], dtype=float), **kw), tilt))
     if k == "plane_pts":
-        return dict(R=enc(mg.project_plane_matrix(pts, **kw)))
+        return dict(R=enc(mg.project_plane_matrix(pts, **kw), tilt))
     if k == "line":
         return dict(R=enc(mg.project_line_matrix(pts, tangent=np.array(inp["n"], dtype=float), **kw)))
     if k == "line_pts":
@@ -141,7 +146,10 @@ def enumerate_inputs(ctx):
                   Near={tuple(v) for v in (NEAR[:3] if q else NEAR)},
                   Bases2={(3, 4), (5, 12)} if q else {(3, 4), (5, 12), (8, 15), (20, 21), (7, 24)},
                   Gen2={-1, 0, 1} if q else {-3, -2, -1, 0, 1, 2, 3},
-                  Kinds={"plane", "line", "plane_pts", "normal", "line_pts", "rot", "tnp3", "tnp2"},
+                  Kinds={"plane", "line", "plane_pts", "normal", "line_pts", "rot", "tnp3", "tnp2",
+                         "tilt_tnp3", "tilt_tnp2", "tilt_plane", "tilt_normal", "tilt_plane_pts"},
+                  Tilts=tlc.Raw("{" + ", ".join(f"[m |-> {m}, facs |-> {tlc.tla(f)}]" for m, f in TILTS) + "}"),
+                  TiltSigns={1} if q else {-1, 1},
                   SmallNorm=30 if q else 100, ExtraPtDirs={(3, 4, 12), (-12, 3, 4), (4, -12, -3)},
                   MaxShift=1 if q else 4, Offsets={(1, -2, 3)} if q else {(0, 0, 0), (1, -2, 3)}, PtRefs={0} if q else {0, 2},
                   LineRefs={0, 2} if q else {0, 1, 2, 3}, AllScales=not q)
@@ -154,8 +162,8 @@ def enumerate_inputs(ctx):
 
 def describe(inp):
     k = inp["kind"]
-    if k == "tnp":
-        return f"tnp dim={inp['dim']} normals={inp['normals']}"
+    if k in ("tnp", "tilt_tnp"):
+        return f"{k} dim={inp['dim']} normals={inp['normals']}"
     if k == "rot":
         return f"rotation_matrix axis={inp['w']} angle={inp['ang']}"
     return f"{k} n={inp['n']} ref={inp['ref']} pts={inp['pts']}"
@@ -164,6 +172,10 @@ def describe(inp):
 def class_key(inp, out):
     k = inp["kind"]
     ex = is_exact(out)
+    if k == "tilt_tnp":
+        return (k, inp["dim"], len(inp["nb"]["facs"]), tuple(inp["nb"]["cv"]))
+    if k.startswith("tilt_"):
+        return (k, inp["ref"], len(inp["nb"]["facs"]), tuple(inp["nb"]["cv"]), len(inp["pts"]))
     if k == "tnp":
         return (k, inp["dim"], len(inp["normals"]), ex)
     if k == "rot":
